@@ -44,8 +44,8 @@ pub trait Runtime: Sync {
     fn cond_notify_all(&self, cv: usize);
     fn yield_now(&self);
     fn sleep(&self, dur: Duration);
-    /// Head of an unbounded wait loop.
-    fn spin_loop(&self);
+    /// Head of an unbounded wait loop; `site` identifies the loop.
+    fn spin_loop(&self, site: usize);
     fn on_alloc(&self, ptr: usize, bytes: usize);
     /// true = the runtime took ownership of the block (quarantine).
     fn on_dealloc(&self, ptr: usize, bytes: usize, align: usize) -> bool;
@@ -304,10 +304,15 @@ impl<T> RawShimMutex<T> {
             }),
             Some(r) => {
                 if r.mutex_try_lock(self.addr()) {
-                    Some(ShimGuard {
-                        guard: Some(self.inner.lock()),
-                        addr: self.addr(),
-                    })
+                    // a runtime in pass-through mode grants everything: the
+                    // real lock decides then
+                    match self.inner.try_lock() {
+                        Some(g) => Some(ShimGuard {
+                            guard: Some(g),
+                            addr: self.addr(),
+                        }),
+                        None => None,
+                    }
                 } else {
                     None
                 }
@@ -446,9 +451,10 @@ pub fn sleep(dur: Duration) {
 }
 
 #[inline]
+#[track_caller]
 pub fn spin_loop() {
     if let Some(r) = rt() {
-        r.spin_loop();
+        r.spin_loop(std::panic::Location::caller() as *const _ as usize);
     }
 }
 
